@@ -1851,7 +1851,9 @@ moreData:
 		}
 		if kind == kindHTTP {
 			if len(msg.Args) == 0 {
-				return nil, errInvalidHTTP
+				// the commands already read from this packet are still answered
+				err = errInvalidHTTP
+				break
 			}
 			msgs = append(msgs, msg)
 		} else if len(args) > 0 {
